@@ -1,8 +1,220 @@
-(* Props/C13.v — C13 (statements only). *)
+(* Props/C13.v — C13: a satisfied trigger condition launches its task exactly once.
+   Statements only; every proof is `exact <lemma of Proofs/TriggerProofs.v or Proofs/CronProofs.v>`.
+   `gen_facts` is regenerated from pynenc/trigger/*.py on every run (gen/Trigger_gen.v). *)
 From Coq Require Import List Bool Arith ZArith.
 Import ListNotations.
-From PV Require Import Model.TriggerDef gen.Trigger_gen Model.Trigger Model.Cron Proofs.TriggerProofs.
+From PV Require Import Model.TriggerDef gen.Trigger_gen Model.Trigger Model.Cron
+  Proofs.TriggerProofs Proofs.CronProofs.
+
+(* what the current source guarantees structurally: every launch is guarded by a run claim, valid
+   conditions are cleared after the launch loop, the in-memory claim and compare-and-swap are read-test-write
+   under one lock, the claim expires after a positive time, the cron comparisons are 0 <= d <= window and
+   since_last < min_interval *)
+Theorem current_tree_guards :
+  f_claim_guards_launch gen_facts = true /\ f_clear_after_launch gen_facts = true /\
+  f_mem_claim_locked gen_facts = true /\ f_mem_cas_locked gen_facts = true /\
+  (0 <? f_claim_expiry_s gen_facts)%Z = true /\
+  f_cron_window_inclusive gen_facts = true /\ f_cron_min_interval_strict gen_facts = true /\
+  f_status_ctx_inv_and_status gen_facts = true.
+Proof. exact (conj eq_refl (conj eq_refl (conj eq_refl (conj eq_refl (conj eq_refl (conj eq_refl (conj eq_refl eq_refl))))))). Qed.
+Print Assumptions current_tree_guards.
+
+(* ---- OR / single-condition triggers ---- *)
+(* Full statement: in one loop iteration a trigger that is OR or depends on one condition launches exactly
+   once per pending occurrence of its conditions, each launch with the arguments its provider derives from
+   that occurrence alone, however many occurrences are pending. *)
+Definition or_trigger_once_per_occurrence_full (F : facts) : Prop :=
+  forall trigs s t,
+  NoDup (map t_id trigs) -> In t trigs -> NoDup (pending s) ->
+  t_logic t = LOr \/ single_cond t = true ->
+  (forall w, In w (ctx_of t (pending s)) -> live (claims s) (t_id t, [w]) (now s) = false) ->
+  tl_of (t_id t) (launched (iteration F trigs s))
+  = tl_of (t_id t) (launched s)
+    ++ map (fun v => {| l_t := t_id t; l_run := [v]; l_args := get_args t [v] |}) (ctx_of t (pending s)).
+
+(* it holds for the current source as soon as the loop launches per occurrence *)
+Theorem or_trigger_once_per_occurrence_fixed :
+  f_per_occurrence gen_facts = true -> or_trigger_once_per_occurrence_full gen_facts.
+Proof. exact (fun H trigs s t => iteration_per_occurrence_own_args gen_facts trigs s t H). Qed.
+Print Assumptions or_trigger_once_per_occurrence_fixed.
+
+(* partial, unconditional: OR triggers launch once per pending occurrence (never twice, never zero) ... *)
+Theorem or_trigger_once_per_occurrence_partial : forall trigs s t,
+  NoDup (map t_id trigs) -> In t trigs -> NoDup (pending s) -> t_logic t = LOr ->
+  (forall w, In w (ctx_of t (pending s)) -> live (claims s) (t_id t, [w]) (now s) = false) ->
+  map l_run (tl_of (t_id t) (launched (iteration gen_facts trigs s)))
+  = map l_run (tl_of (t_id t) (launched s)) ++ map (fun v => [v]) (ctx_of t (pending s)).
+Proof. exact (iteration_or_one_launch_each gen_facts). Qed.
+Print Assumptions or_trigger_once_per_occurrence_partial.
+
+(* ... and with a single pending occurrence OR and single-condition triggers launch once with its own arguments *)
+Theorem single_pending_occurrence_launches_once : forall trigs s t v,
+  NoDup (map t_id trigs) -> In t trigs -> NoDup (pending s) ->
+  t_logic t = LOr \/ single_cond t = true ->
+  ctx_of t (pending s) = [v] ->
+  live (claims s) (t_id t, [v]) (now s) = false ->
+  tl_of (t_id t) (launched (iteration gen_facts trigs s))
+  = tl_of (t_id t) (launched s) ++ [{| l_t := t_id t; l_run := [v]; l_args := get_args t [v] |}].
+Proof. exact (iteration_single_occurrence gen_facts). Qed.
+Print Assumptions single_pending_occurrence_launches_once.
+
+(* refuted while the loop hands the whole trigger context to the provider / hashes all occurrences together *)
+Theorem or_trigger_once_per_occurrence_refuted : forall F, f_per_occurrence F = false ->
+  map l_args (launched (run F false [t_or_event] [ORecord 0 (ev 1); ORecord 0 (ev 2); OIter]))
+    = [ACtx (0, [0; 1]); ACtx (0, [0; 1])]
+  /\ length (launched (run F false [t_single_event] [ORecord 0 (ev 1); ORecord 0 (ev 2); OIter])) = 1
+  /\ pending (run F false [t_single_event] [ORecord 0 (ev 1); ORecord 0 (ev 2); OIter]) = [].
+Proof. exact (fun F H => conj (or_args_refuted F H) (single_collapses_refuted F H)). Qed.
+Print Assumptions or_trigger_once_per_occurrence_refuted.
+
+(* ---- AND triggers ---- *)
+Theorem and_trigger_needs_all : forall trigs s t,
+  NoDup (map t_id trigs) -> In t trigs -> t_logic t = LAnd ->
+  tl_of (t_id t) (launched (iteration gen_facts trigs s)) <> tl_of (t_id t) (launched s) ->
+  forall c, In c (t_conds t) -> exists v, In v (pending s) /\ fst v = c.
+Proof. exact (iteration_and_needs_all gen_facts). Qed.
+Print Assumptions and_trigger_needs_all.
+
+Theorem and_trigger_launches_once_when_all_pending : forall trigs s t,
+  NoDup (map t_id trigs) -> In t trigs -> t_logic t = LAnd ->
+  f_per_occurrence gen_facts && single_cond t = false ->
+  should_trigger t (ctx_of t (pending s)) = true ->
+  live (claims s) (t_id t, ctx_of t (pending s)) (now s) = false ->
+  tl_of (t_id t) (launched (iteration gen_facts trigs s))
+  = tl_of (t_id t) (launched s)
+    ++ [{| l_t := t_id t; l_run := ctx_of t (pending s); l_args := get_args t (ctx_of t (pending s)) |}].
+Proof. exact (iteration_and_once gen_facts). Qed.
+Print Assumptions and_trigger_launches_once_when_all_pending.
+
+(* consumption: an occurrence is still pending after the iteration iff no trigger depends on it or some
+   dependent trigger was not satisfied *)
+Theorem occurrences_consumed : forall trigs s v,
+  In v (pending (iteration gen_facts trigs s)) <->
+  In v (pending s) /\
+  ((forall t, In t trigs -> depends t v = false)
+   \/ exists t, In t trigs /\ depends t v = true /\ should_trigger t (ctx_of t (pending s)) = false).
+Proof. exact (iteration_pending_characterised gen_facts). Qed.
+Print Assumptions occurrences_consumed.
 
 Theorem record_idempotent : forall v s, record_vc false v (record_vc false v s) = record_vc false v s.
 Proof. exact record_idempotent_mem. Qed.
 Print Assumptions record_idempotent.
+
+(* ---- claims: several loops at the same time, any schedule, any number of loops ---- *)
+Theorem two_loops_at_most_once_mem : forall plans sched,
+  NoDup (cw_launches (crun (f_mem_claim_locked gen_facts) (cworld0 plans) sched)).
+Proof. exact atomic_claim_at_most_once. Qed.
+Print Assumptions two_loops_at_most_once_mem.
+
+Theorem two_loops_at_most_once_sqlite_fixed : f_sqlite_claim_immediate gen_facts = true ->
+  forall plans sched, NoDup (cw_launches (crun (f_sqlite_claim_immediate gen_facts) (cworld0 plans) sched)).
+Proof. exact (claim_flag_at_most_once (f_sqlite_claim_immediate gen_facts)). Qed.
+Print Assumptions two_loops_at_most_once_sqlite_fixed.
+
+Theorem two_loops_at_most_once_refuted : exists plans sched, ~ NoDup (cw_launches (crun false (cworld0 plans) sched)).
+Proof. exact split_claim_refuted. Qed.
+Print Assumptions two_loops_at_most_once_refuted.
+
+(* the claim expiry: not again within the expiry, again after it while an unsatisfied AND trigger keeps the
+   occurrence pending *)
+Theorem no_refire_within_claim_expiry : forall dt, (0 <= dt < f_claim_expiry_s gen_facts)%Z ->
+  length (tl_of 0 (launched (run gen_facts false [t_or_event; t_and_two]
+                                 [ORecord 0 (ev 1); OIter; OAdvance dt; OIter]))) = 1.
+Proof. exact (fun dt => no_refire_within_expiry gen_facts dt eq_refl). Qed.
+Print Assumptions no_refire_within_claim_expiry.
+
+Theorem refire_after_claim_expiry_refuted :
+  length (tl_of 0 (launched (run gen_facts false [t_or_event; t_and_two]
+                                 [ORecord 0 (ev 1); OIter; OAdvance (f_claim_expiry_s gen_facts); OIter]))) = 2.
+Proof. exact (refire_after_expiry_refuted gen_facts eq_refl eq_refl). Qed.
+Print Assumptions refire_after_claim_expiry_refuted.
+
+(* ---- occurrence identity ---- *)
+Theorem exception_occurrences_distinct_fixed : f_exc_ctx_has_invocation gen_facts = true ->
+  forall a b, o_kind a = 3 -> o_kind b = 3 -> ctx_id gen_facts a = ctx_id gen_facts b ->
+  o_src a = o_src b /\ o_aux a = o_aux b.
+Proof. exact (fun H a b => exception_ctx_distinct gen_facts a b H). Qed.
+Print Assumptions exception_occurrences_distinct_fixed.
+
+Theorem exception_occurrences_distinct_refuted : forall F, f_exc_ctx_has_invocation F = false ->
+  ctx_id F {| o_kind := 3; o_src := 1; o_aux := 0; o_n := 1 |} = ctx_id F {| o_kind := 3; o_src := 2; o_aux := 0; o_n := 2 |}.
+Proof. exact exception_ctx_collapses_refuted. Qed.
+Print Assumptions exception_occurrences_distinct_refuted.
+
+Theorem status_reentry_is_one_occurrence_refuted : forall a b,
+  o_kind a = 1 -> o_kind b = 1 -> o_src a = o_src b -> o_aux a = o_aux b -> ctx_id gen_facts a = ctx_id gen_facts b.
+Proof. exact (status_reentry_same_key gen_facts). Qed.
+Print Assumptions status_reentry_is_one_occurrence_refuted.
+
+(* ---- cron ---- *)
+Definition cron_none_outside_window_full (F : facts) : Prop :=
+  forall sched c ts last, cron_sat sched F c ts last = true ->
+  exists p, sched p = true /\ (0 <= ts - p * MIN_US <= cw_window_s c * US)%Z.
+
+Theorem cron_none_outside_window_partial : forall sched c ts last, (60 <= cw_window_s c)%Z ->
+  cron_sat sched gen_facts c ts last = true ->
+  exists p, sched p = true /\ (0 <= ts - p * MIN_US <= cw_window_s c * US)%Z.
+Proof. exact (fun sched c ts last => sat_inside_window_ge_minute sched gen_facts c ts last (conj eq_refl eq_refl)). Qed.
+Print Assumptions cron_none_outside_window_partial.
+
+Theorem cron_fires_only_near_a_scheduled_minute : forall sched c ts last,
+  cron_sat sched gen_facts c ts last = true ->
+  exists p, sched p = true /\ (p * MIN_US <= ts)%Z /\
+            (p = minute_of ts \/ (ts - p * MIN_US <= cw_window_s c * US)%Z).
+Proof. exact (fun sched c ts last => sat_inside_window sched gen_facts c ts last (conj eq_refl eq_refl)). Qed.
+Print Assumptions cron_fires_only_near_a_scheduled_minute.
+
+Theorem cron_none_outside_window_refuted :
+  cron_sat (fun m => Z.eqb m 0) gen_facts
+           {| cw_window_s := 10; cw_min_interval_s := 5; cw_tolerance_s := 5; cw_strict := true |}
+           (51 * US)%Z None = true.
+Proof. exact (window_ignored_inside_minute_refuted gen_facts eq_refl). Qed.
+Print Assumptions cron_none_outside_window_refuted.
+
+Theorem cron_at_most_one_per_minute : forall sched c tss last, NoDup (fired_minutes sched gen_facts c last tss).
+Proof. exact (fun sched => minute_fires_at_most_once sched gen_facts). Qed.
+Print Assumptions cron_at_most_one_per_minute.
+
+Theorem cron_first_poll_in_window_fires : forall sched c ts last p d,
+  attributed sched c ts = Some (p, d) -> (0 <= d <= cw_window_s c * US)%Z ->
+  (cw_strict c = true -> (d <= cw_tolerance_s c * US)%Z) ->
+  (forall l, last = Some l -> (cw_min_interval_s c * US <= ts - l)%Z /\ (l < p * MIN_US)%Z) ->
+  cron_sat sched gen_facts c ts last = true.
+Proof. exact (fun sched c ts last p d => in_window_fires sched gen_facts c ts last p d (conj eq_refl eq_refl)). Qed.
+Print Assumptions cron_first_poll_in_window_fires.
+
+Theorem cron_cache_only_short_circuits : forall sched c ts l1 l2, (l1 <= l2)%Z ->
+  cron_sat sched gen_facts c ts (Some l2) = true -> cron_sat sched gen_facts c ts (Some l1) = true.
+Proof. exact (fun sched c ts l1 l2 => sat_antitone_last sched gen_facts c ts l1 l2 (conj eq_refl eq_refl)). Qed.
+Print Assumptions cron_cache_only_short_circuits.
+
+Theorem cron_first_poll_checked_fixed : f_cron_first_poll_checked gen_facts = true ->
+  forall sched c ts last, store_sat sched gen_facts c ts last = cron_sat sched gen_facts c ts last.
+Proof. exact (fun H sched c ts last => first_poll_checked_agrees sched gen_facts c ts last H). Qed.
+Print Assumptions cron_first_poll_checked_fixed.
+
+Theorem cron_first_poll_unconditional_refuted : forall F, f_cron_first_poll_checked F = false ->
+  forall c ts, store_sat (fun _ => false) F c ts None = true /\ cron_sat (fun _ => false) F c ts None = false.
+Proof. exact first_poll_unconditional_refuted. Qed.
+Print Assumptions cron_first_poll_unconditional_refuted.
+
+(* compare-and-swap on the last execution: with an atomic store that refuses a stale expectation (None
+   included) no two loops fire on the same stored value, for any number of loops and any schedule *)
+Theorem cron_two_loops_one_occurrence_fixed : forall atomic rejects_none, atomic = true -> rejects_none = true ->
+  forall n v0 sched, NoDup (cv_fired (casrun atomic rejects_none (casworld0 n v0) sched)).
+Proof. exact cas_flags_fire_once. Qed.
+Print Assumptions cron_two_loops_one_occurrence_fixed.
+
+Theorem cron_two_loops_one_occurrence_refuted :
+  (exists sched, ~ NoDup (cv_fired (casrun true false (casworld0 2 0) sched)))
+  /\ (exists sched, ~ NoDup (cv_fired (casrun false true (casworld0 2 3) sched))).
+Proof. exact (conj cas_none_refuted cas_split_refuted). Qed.
+Print Assumptions cron_two_loops_one_occurrence_refuted.
+
+(* non-vacuity: an event and a status occurrence, an OR trigger on the event and an AND trigger on both *)
+Example c13_nonvacuous :
+  let trigs := [t_or_event; {| t_id := 1; t_conds := [0; 1]; t_logic := LAnd; t_static := false; t_prov := [0; 1] |}] in
+  let s := run gen_facts false trigs
+             [ORecord 0 (ev 1); OIter; ORecord 1 {| o_kind := 1; o_src := 4; o_aux := 0; o_n := 2 |}; OIter] in
+  map l_t (launched s) = [0; 1] /\ pending s = [].
+Proof. vm_compute. split; reflexivity. Qed.
